@@ -9,3 +9,5 @@ pub mod schema;
 pub mod linecol;
 pub mod coerce;
 pub mod typesys;
+pub mod depth;
+pub mod introspect;
